@@ -387,6 +387,19 @@ func (c *FnCtx) callByContract(st *State, fs *FuncSpec, sig *types.Signature, re
 		t := pre.boolOf(r.Expr)
 		c.obligeNamed(st, "pre", "", t, fmt.Sprintf("precondition #%d of %s: %s", i+1, key, r.Src), pos)
 	}
+	if key == c.fname && c.inlineDepth == 0 {
+		if fs.Decreases != nil && c.entry != nil {
+			cur := &SpecScope{c: c, cur: c.entry, vars: map[string]Val{}}
+			for k, v := range c.paramVals {
+				cur.vars[k] = v
+			}
+			m0 := cur.intOf(fs.Decreases.Expr)
+			m1 := pre.intOf(fs.Decreases.Expr)
+			c.obligeNamed(st, "decreases", "", sAnd(sx("<", m1, m0), sx("<=", "0", m0)), "recursive call decreases "+fs.Decreases.Src, pos)
+		} else {
+			c.unmodelled["recursive call without decreases clause (termination not proved)"] = true
+		}
+	}
 	old := st.clone()
 	// results
 	nres := sig.Results().Len()
